@@ -4,7 +4,8 @@
 From Coq Require Import List ZArith Bool.
 From WebpGen Require Tables Consts.
 From Webp Require Import Vp8.Vp8Bool Vp8.Vp8Tables Vp8.Vp8Syntax Vp8.Vp8Kernels Vp8.Vp8KernelProofs Vp8.Vp8Upsample
-  Vp8.Vp8BoolAbs Vp8.Vp8BoolEnc Vp8.Vp8SyntaxRT Vp8.Vp8TokenRT Vp8.Vp8ModeRT.
+  Vp8.Vp8BoolAbs Vp8.Vp8BoolEnc Vp8.Vp8SyntaxRT Vp8.Vp8TokenRT Vp8.Vp8ModeRT Vp8.Vp8Recon Vp8.Vp8Filter Vp8.Vp8Spec Vp8.Vp8FrameRT.
+From Webp Require Import Base.Res.
 Import ListNotations.
 Open Scope Z_scope.
 
@@ -91,33 +92,41 @@ Print Assumptions C04_decode_block_roundtrip.
     macroblocks are the last row / column of sub-block modes, or the mode a 16x16 mode stands for. *)
 Theorem C04_mb_header_roundtrip : forall h above_b left_b mh d rest, wf_mb_hdr h above_b left_b mh ->
   sync d (e_mb_hdr h above_b left_b mh ++ rest) ->
-  exists d' ab ls, parse_mb_hdr h above_b left_b d = (mh, ab, ls, d') /\ sync d' rest /\
-    length ab = 4%nat /\ length ls = 4%nat /\
-    (mh_is4 mh = true -> ab = last (mh_bmodes mh) above_b) /\
-    (mh_is4 mh = false -> ab = rep4 (bmode_of_ymode (mh_ymode mh)) /\ ls = rep4 (bmode_of_ymode (mh_ymode mh))).
+  exists d', parse_mb_hdr h above_b left_b d =
+               (mh, fst (bctx_after mh above_b left_b), snd (bctx_after mh above_b left_b), d') /\ sync d' rest.
 Proof. exact parse_mb_hdr_rt. Qed.
 Print Assumptions C04_mb_header_roundtrip.
 
 (** Residual data of a macroblock: Y2 block (16x16 modes), 16 luma, 4 + 4 chroma blocks with the
     "has coefficients" contexts of the left and above blocks, block types 0..3, first coefficient
-    1 after Y2: the parser returns the dequantised blocks of the emitted levels and the
-    "any coefficient" flag. *)
+    1 after Y2: the parser returns the dequantised blocks of the emitted levels, the
+    "any coefficient" flag and the contexts for the next macroblocks. *)
 Theorem C04_residuals_roundtrip : forall probs q (is4 : bool) above left y2 ys us vs d rest,
   length (nz_y above) = 4%nat -> length (nz_y left) = 4%nat ->
   length (nz_u above) = 2%nat -> length (nz_u left) = 2%nat ->
   length (nz_v above) = 2%nat -> length (nz_v left) = 2%nat ->
   wf_levels 0 false y2 -> wf_rows (if is4 then 0 else 1) 4 ys -> wf_rows 0 2 us -> wf_rows 0 2 vs ->
   sync d (e_residuals probs is4 above left y2 ys us vs ++ rest) ->
-  exists d' na nl, parse_residuals probs q is4 above left d =
-    (mkRes (if is4 then None else Some (deq 0 (dq_y2dc q) (dq_y2ac q) y2))
-           (map (deq (if is4 then 0 else 1) (dq_y1dc q) (dq_y1ac q)) (concat ys))
-           (map (deq 0 (dq_uvdc q) (dq_uvac q)) (concat us))
-           (map (deq 0 (dq_uvdc q) (dq_uvac q)) (concat vs))
-           ((if is4 then false else bany y2) || existsb bany (concat ys) || existsb bany (concat us) || existsb bany (concat vs)),
-     na, nl, d') /\ sync d' rest /\
-    nz_y2 na = (if is4 then nz_y2 above else bflag y2) /\ nz_y2 nl = (if is4 then nz_y2 left else bflag y2).
+  exists d', parse_residuals probs q is4 above left d =
+    (res_of q is4 y2 ys us vs, fst (nz_after is4 above left y2 ys us vs), snd (nz_after is4 above left y2 ys us vs), d')
+    /\ sync d' rest.
 Proof. exact parse_residuals_rt. Qed.
 Print Assumptions C04_residuals_roundtrip.
+
+(** Whole key frame: an abstract frame (header, per-macroblock header and residual levels in raster
+    order) is emitted as symbol lists (first partition; token partitions with macroblock rows
+    round-robin), each list through the Go boolean encoder, laid out by assembleFrame with its size
+    guards; Vp8Spec.decode_gen (the specification for rfc_quirks, the Go-flavoured model for
+    go_quirks) parses the bytes back to the same syntax elements and reconstructs exactly what
+    [reconstruct] computes from the syntax, before and after the loop filter.  wf_frame_syn: header
+    fields in range, modes valid, levels within +-2114 with proper block ends, context shapes, all
+    probabilities bytes. *)
+Theorem C04_vp8_emit_decode : forall qk s bs, wf_frame_syn qk s -> emit_key_frame qk s = Ok bs ->
+  exists r, decode_gen qk bs = Ok r /\
+    dc_w r = fh_w (fs_hdr s) /\ dc_h r = fh_h (fs_hdr s) /\ dc_hdr r = fs_hdr s /\
+    dc_unfiltered r = fst (reconstruct qk s) /\ dc_filtered r = snd (reconstruct qk s).
+Proof. exact vp8_emit_decode. Qed.
+Print Assumptions C04_vp8_emit_decode.
 
 (** ** Kernel refinements: the Go decoder's short-cuts against the full definitions *)
 
